@@ -40,6 +40,13 @@ func init() {
 		mutation{"router-before-invalidate", "tun/client/tunnel.go", "	diff := diffTunnels(c.Configuration.Tunnels, tunnels)\n	c.closeOutdatedProxies(diff...)\n\n	c.Configuration.Tunnels = tunnels", "	diff := diffTunnels(c.Configuration.Tunnels, tunnels)\n\n	c.Configuration.Tunnels = tunnels", "invalidate"},
 		mutation{"reload-unlocked-callback", "tun/client/reload.go", "	c.configMu.Lock()\n	if err := c.Configuration.reloadFile(onReload); err != nil {\n		c.Logger.Error(\"Error reloading config file\", zap.Error(err))\n		c.configMu.Unlock()\n		return\n	}\n	c.configMu.Unlock()", "	if err := c.Configuration.reloadFile(onReload); err != nil {\n		c.Logger.Error(\"Error reloading config file\", zap.Error(err))\n		return\n	}", "guarded-by"},
 	)
+	addSelfTests("C45",
+		// the repaired shape must be accepted (the tree itself carries the finding, see KNOWN_FINDINGS.json)
+		mutation{"repair-temp-and-rename", "tun/client/config.go", "	f, err := os.OpenFile(c.path, os.O_RDWR|os.O_CREATE|os.O_TRUNC, 0644)\n	if err != nil {\n		return fmt.Errorf(\"error opening config file for writing: %w\", err)\n	}\n	defer f.Close()\n	defer f.Sync()\n\n	encoder := yaml.NewEncoder(f)\n	encoder.SetIndent(2)\n	defer encoder.Close()\n	return encoder.Encode(c)", "	f, err := os.CreateTemp(filepath.Dir(c.path), \"specter-*.yaml\")\n	if err != nil {\n		return fmt.Errorf(\"error opening config file for writing: %w\", err)\n	}\n	defer os.Remove(f.Name())\n\n	encoder := yaml.NewEncoder(f)\n	encoder.SetIndent(2)\n	if err := encoder.Encode(c); err != nil {\n		f.Close()\n		return err\n	}\n	if err := encoder.Close(); err != nil {\n		f.Close()\n		return err\n	}\n	if err := f.Sync(); err != nil {\n		f.Close()\n		return err\n	}\n	if err := f.Close(); err != nil {\n		return err\n	}\n	return os.Rename(f.Name(), c.path)", "!atomic-replace"},
+		mutation{"rename-without-sync", "tun/client/config.go", "	f, err := os.OpenFile(c.path, os.O_RDWR|os.O_CREATE|os.O_TRUNC, 0644)\n	if err != nil {\n		return fmt.Errorf(\"error opening config file for writing: %w\", err)\n	}\n	defer f.Close()\n	defer f.Sync()\n\n	encoder := yaml.NewEncoder(f)\n	encoder.SetIndent(2)\n	defer encoder.Close()\n	return encoder.Encode(c)", "	f, err := os.CreateTemp(filepath.Dir(c.path), \"specter-*.yaml\")\n	if err != nil {\n		return fmt.Errorf(\"error opening config file for writing: %w\", err)\n	}\n	defer os.Remove(f.Name())\n\n	encoder := yaml.NewEncoder(f)\n	encoder.SetIndent(2)\n	if err := encoder.Encode(c); err != nil {\n		f.Close()\n		return err\n	}\n	if err := encoder.Close(); err != nil {\n		f.Close()\n		return err\n	}\n	if err := f.Close(); err != nil {\n		return err\n	}\n	return os.Rename(f.Name(), c.path)", "rename-after-encode-sync-close"},
+	)
+	mutExtra["repair-temp-and-rename"] = [2]string{"	\"os\"\n", "	\"os\"\n	\"path/filepath\"\n"}
+	mutExtra["rename-without-sync"] = [2]string{"	\"os\"\n", "	\"os\"\n	\"path/filepath\"\n"}
 	addSelfTests("C50",
 		mutation{"four-gateways", "tun/client/connection.go", "		if len(nodes) < tun.NumRedundantLinks {\n			nodes = append(nodes, node)\n		}", "		if len(nodes) <= tun.NumRedundantLinks {\n			nodes = append(nodes, node)\n		}", "bound"},
 		mutation{"slowest-first", "tun/client/connection.go", "		return l < r\n	})", "		return l > r\n	})", "comparator"},
